@@ -27,6 +27,7 @@ __all_reexport__ = (as_test, negate)
 
 # bare callee name -> positional parameter names, for project functions whose parameter list is unambiguous (set by cli)
 SIGNATURES: Dict[str, List[str]] = {}
+DEFAULTS: Dict[str, Dict[str, ast.Constant]] = {}   # constant parameter defaults of those callees: an argument spelled out at its default matches its absence
 
 
 class Unmodelled(Exception):
@@ -66,6 +67,19 @@ class _Sub(ast.NodeTransformer):
         self.generic_visit(n)
         if dotted(n.func) in ("cast", "typing.cast") and len(n.args) == 2 and not n.keywords:
             return n.args[1]
+        # a local bound to a lambda and applied: (lambda x: E)(a) is E[a/x] for plain positional parameters
+        f = n.func
+        if isinstance(f, ast.Lambda) and not n.keywords and not any(isinstance(a, ast.Starred) for a in n.args):
+            a = f.args
+            if not (a.vararg or a.kwarg or a.kwonlyargs or a.posonlyargs or a.defaults) and len(a.args) == len(n.args):
+                binding = {x.arg: v for x, v in zip(a.args, n.args)}
+                uses = {p: sum(1 for m in ast.walk(f.body) if isinstance(m, ast.Name) and m.id == p) for p in binding}
+                simple = all(isinstance(v, (ast.Name, ast.Constant, ast.Attribute)) or uses[p] <= 1 for p, v in binding.items())
+                inner_bound = {m.id for m in ast.walk(f.body) if isinstance(m, ast.Name) and isinstance(m.ctx, ast.Store)} | \
+                    {x.arg for m in ast.walk(f.body) if isinstance(m, ast.Lambda) for x in m.args.args}
+                if simple and not (inner_bound & set(binding)) and not any(
+                        isinstance(m, ast.Name) and m.id in inner_bound for v in binding.values() for m in ast.walk(v)):
+                    return _Sub(binding).visit(copy.deepcopy(f.body))
         return n
 
     def _scoped(self, n, targets):
@@ -134,6 +148,10 @@ def _const_truth(e: ast.expr) -> Optional[bool]:
     """Truth of a condition that is decided by constants alone (`1 == 1`)."""
     if isinstance(e, ast.Constant):
         return bool(e.value)
+    if isinstance(e, ast.Compare) and len(e.ops) == 1 and isinstance(e.ops[0], (ast.Is, ast.IsNot)) and isinstance(e.comparators[0], ast.Constant) \
+            and e.comparators[0].value is None and isinstance(e.left, (ast.Lambda, ast.Constant, ast.Dict, ast.List, ast.Tuple, ast.Set, ast.JoinedStr)):
+        is_none = isinstance(e.left, ast.Constant) and e.left.value is None
+        return is_none if isinstance(e.ops[0], ast.Is) else not is_none
     if isinstance(e, ast.Compare) and len(e.ops) == 1 and isinstance(e.left, ast.Constant) and isinstance(e.comparators[0], ast.Constant):
         a, b = e.left.value, e.comparators[0].value
         op = e.ops[0]
@@ -517,6 +535,10 @@ class _PM:
                 return d
             dp, dn = as_kw(p), as_kw(n)
             if dp is not None and dn is not None:
+                dfl = DEFAULTS.get(name, {})
+                for k in set(dp) ^ set(dn):
+                    if k in dfl:
+                        (dp if k not in dp else dn)[k] = dfl[k]
                 return set(dp) == set(dn) and all(self.match(dp[k], dn[k]) for k in dp)
         # a pattern argument list ending in `ANY_REST` style star is not supported; keywords match by name, any order
         if len(p.args) != len(n.args):
